@@ -38,6 +38,20 @@ impl Fake {
         self.push_raw(&b);
     }
 
+    /// Like push_replies, for a connection the client may already have let go of: false when the
+    /// bytes could not be written.
+    pub fn try_push_replies(&mut self, replies: &[Value]) -> bool {
+        let mut b = vec![];
+        for r in replies {
+            b.extend_from_slice(&serde_json::to_vec(r).unwrap());
+            b.push(0);
+        }
+        self.server.set_nonblocking(false).unwrap();
+        let ok = self.server.write_all(&b).is_ok();
+        self.server.set_nonblocking(true).unwrap();
+        ok
+    }
+
     pub fn push_raw(&mut self, b: &[u8]) {
         self.server.set_nonblocking(false).unwrap();
         self.server.write_all(b).expect("fake server write");
